@@ -40,4 +40,8 @@ EXPLANATION = ('pool.liquidity, tick net/gross/initialized and position.liquidit
 
 
 def run(ctx):
+    # Engine M complement (props/mextra.py): the swap loop's crossing/fee/reward wiring (Floyd verification shared with C03) and, where relevant, the payout handlers and leaf kernels
+    from props import mextra
+    ctx.mir()
+    ctx.parallel(mextra.c05_tasks(), max_procs=6)
     ctx.run_kani(['c05.rs'])
